@@ -1099,8 +1099,16 @@ class Builder:
                     if k == nm:
                         isnone = v is None
                 ax = frame.arg_exprs.get(nm)
-                if isnone is None and ax is not None and \
-                        self._provably_object(ax[0]):
+                if isnone is None and ax is not None and (
+                        self._provably_object(ax[0]) or
+                        isinstance(ax[0], ast.Lambda) or
+                        (isinstance(ax[0], ast.Name) and
+                         ax[0].id in getattr(ax[1].ctx.func, 'nested', {})
+                         and not any(
+                             isinstance(x, ast.Name) and x.id == ax[0].id
+                             and isinstance(x.ctx, (ast.Store, ast.Del))
+                             for x in walk_own(ax[1].ctx.func.node)))):
+                    # (a lambda / a local def handed over is an object)
                     isnone = False
             if isnone is not None:
                 if not self.dangling:
